@@ -85,7 +85,7 @@ def case_lit(d, S, out, zeros):
 def run(ctx):
     ctx.prove()
     rng = ctx.rng
-    count = 300 if ctx.quick else 3000
+    count = 300 if ctx.quick else 6000
     max_n = 14 if ctx.quick else 18
     stats = {"feasible_instances": 0, "infeasible_instances": 0, "R_nonzero": 0}
     cases, terms = [], []
